@@ -297,6 +297,8 @@ class Sym:
                     if l in self.stateful_locals:
                         events = events + [("init", l, fn.local_name(l), val, b, span_line(t["s"]))]
                         del env[l]
+                    elif fn.local_name(l) and l != 0:
+                        events = events + [("set", l, fn.local_name(l), val, b, span_line(t["s"]))]
                     for kk in [x for x in env if isinstance(x, tuple) and x[0] == l]:
                         del env[kk]
                 else:
